@@ -92,6 +92,10 @@ pub fn install_panic_hook() {
             .location()
             .map(|l| {
                 let f = l.file();
+                let root = std::env::var("VERIF_REPO").unwrap_or_else(|_| "/repo".into());
+                if let Some(rel) = f.strip_prefix(&format!("{}/", root.trim_end_matches('/'))) {
+                    return format!("{rel}:{}", l.line());
+                }
                 // normalise to a path relative to the crate under test when possible
                 let f = f.rsplit_once("/src/").map(|(pre, post)| {
                     let krate = pre.rsplit('/').next().unwrap_or("");
